@@ -130,6 +130,12 @@ def finish(meta, src, sid):
     # a change is kept under /verif/seeded only when it was confirmed; rejected ones go to /tmp for inspection
     dst = os.path.join(VERIF, 'seeded', sid) if meta.get('confirmed') else os.path.join('/tmp/seed_rejected', sid)
     os.makedirs(dst, exist_ok=True)
+    try:        # the hand-written account of earlier evaluations survives a re-evaluation
+        old = json.load(open(os.path.join(dst, 'meta.json')))
+        if old.get('history') and 'history' not in meta:
+            meta['history'] = old['history']
+    except Exception:
+        pass
     for f in ('patch.diff', 'demo.py'):
         if os.path.exists(os.path.join(src, f)):
             shutil.copy(os.path.join(src, f), os.path.join(dst, f))
